@@ -670,7 +670,7 @@ pub fn multiply_uint_u64_inplace(operand1: &mut[u64], operand2: u64) {
 
 pub fn multiply_uint(operand1: &[u64], operand2: &[u64], result: &mut [u64]) {
     if operand1.is_empty() || operand2.is_empty() {return set_zero_uint(result);}
-    if result.len() == 1 {result[0] = operand1[0].wrapping_mul(operand1[0]); return;}
+    if result.len() == 1 {result[0] = operand1[0].wrapping_mul(operand2[0]); return;}
     let operand1_uint64_count = get_significant_uint64_count_uint(operand1);
     let operand2_uint64_count = get_significant_uint64_count_uint(operand2);
     if operand1_uint64_count == 1 {
